@@ -93,6 +93,12 @@ claim("C15",
       STATIC_NOTE + "Five known findings listed in known_findings.jsonl (types restored by plain reflective CBOR).",
       "DESIGN.md §4 C15")
 
+claim("C16",
+      "SSA reject-guard inventory over Signature.Verify/SigEthereum, taproot Sign/Verify/Public and the secp256k1 scalar/point decoders and LiftX; abstract byte-stream rule on TaggedHash; tag-constant and argument-role rule (may-depend sets) at every TaggedHash call; conditional-negation (even-Y) pairing rule; finite abstract evaluation of the point decoder over all 256 prefix bytes; branch/region rule on the Ethereum recovery byte",
+      "Decides the standard-conformance facts that are visible in the shape of the code and that a self-comparing test cannot see because signer and verifier would change together: the refusals (zero r/s, full-point equality, length, x>=p, s>=n, infinite or odd-Y R, zero key, scalar overflow, non-canonical point prefix) exist, read the right part of the input and gate acceptance; tagged hashes have the BIP-340 byte layout, tags and field order; d and k are negated exactly on odd Y and before use; keys are x-only and lifted to the even root; the Ethereum export negates s only above half order, flips the recovery bit exactly then and keeps the caller's signature object valid. Agreement of the numerical results with a reference implementation (known-answer vectors) is a runtime quantity and is NOT decided.",
+      STATIC_NOTE + "decred secp256k1 arithmetic (DecompressY, SetBytes overflow flag, IsOverHalfOrder) trusted. Not decided: field/scalar arithmetic, test-vector equality.",
+      "DESIGN.md §4 C16")
+
 for p, why in {
     "C01": "not built yet", "C02": "not built yet", "C03": "not built yet", "C04": "not built yet", "C05": "not built yet",
     "C06": "not built yet", "C07": "not built yet", "C08": "not built yet", "C09": "not built yet", "C10": "not built yet",
